@@ -1,0 +1,7 @@
+//go:build !verif
+
+package lazyproto
+
+func verifPoint(string) {}
+
+func verifHandOut(*DecodeResult) {}
